@@ -245,7 +245,7 @@ class Model:
                        ("" if v[1] is None else str(v[1])) for v in vals)
 
     # -- nodes ---------------------------------------------------------------------------
-    def node(self, n: dict, switch_state=None) -> None:
+    def node(self, n: dict, switch_state=None, via_use: bool = False) -> None:
         if n["t"] == "text":
             s = self.text_parts(n["parts"], esc_text)
             if s is not None:
@@ -254,14 +254,25 @@ class Model:
         if n["t"] == "code":
             self.ev(n["e"])         # a code block: evaluated, no output
             return
+        if n.get("define_macro") and not via_use:
+            # rendered in place: an invocation of its own (no slot is
+            # filled), and its tal:on-error is part of the macro
+            self.frames.append({})
+            self.fn_depth += 1
+            try:
+                self.node(n, switch_state, via_use=True)
+            finally:
+                self.fn_depth -= 1
+                self.frames.pop()
+            return
         if n["on_error"] is None:
-            self.element(n, switch_state)
+            self.element(n, switch_state, via_use)
             self._named_done(n)
             return
         mark = len(self.out)
         self.guard_value.pop(n.get("eid"), None)
         try:
-            self.element(n, switch_state)
+            self.element(n, switch_state, via_use)
             self._named_done(n)
         except Exception as exc:        # noqa: BLE001 - that is the rule
             del self.out[mark:]
@@ -413,7 +424,9 @@ class Model:
                     # refers to a macro it has not defined)
                     raise KeyError("Macro does not exist: '%s'."
                                    % n["use_macro"])
-                self.element(self.macros[n["use_macro"]], None, via_use=True)
+                # (through node(): a tal:on-error on the define-macro
+                # element belongs to the macro, wherever it is used)
+                self.node(self.macros[n["use_macro"]], None, via_use=True)
             finally:
                 self.fn_depth -= 1
                 self.frames.pop()
